@@ -16,20 +16,47 @@ import (
 // ---------------------------------------------------------------------------------------------
 
 type c15ByteMut struct {
-	Kind string // "trunc" | "set"
+	Kind string // "trunc" | "set" | "span"
 	Pos  int
 	Val  byte
+	Span string // hex of the bytes written from Pos on (kind span)
 }
 
 func (m c15ByteMut) String() string {
 	if m.Kind == "trunc" {
 		return fmt.Sprintf("trunc@%d", m.Pos)
 	}
+	if m.Kind == "span" {
+		return fmt.Sprintf("bytes[%d..]=%s", m.Pos, m.Span)
+	}
 	return fmt.Sprintf("byte[%d]=0x%02x", m.Pos, m.Val)
 }
 
+// c15LengthSpans: multi-byte length encodings at their boundary values, written over the input at
+// every position: Bitcoin compact-size (fd/fe/ff prefixes) with maximal and top-bit-set values,
+// protobuf varints of 2^63 and 2^64-1, a 2^32-1 / 2^31 little-endian word. A single-byte deviation
+// can never produce these (a 9-byte length whose top bit is set needs two bytes to change).
+var c15LengthSpans = [][]byte{
+	{0xfd, 0xff, 0xff},
+	{0xfe, 0xff, 0xff, 0xff, 0xff},
+	{0xfe, 0x00, 0x00, 0x00, 0x80},
+	{0xff, 0xff, 0xff, 0xff, 0xff, 0xff, 0xff, 0xff, 0xff},
+	{0xff, 0x00, 0x00, 0x00, 0x00, 0x00, 0x00, 0x00, 0x80},
+	{0xff, 0xff, 0xff, 0xff, 0xff, 0xff, 0xff, 0xff, 0x7f},
+	{0xff, 0xd8, 0xff, 0xff, 0xff, 0xff, 0xff, 0xff, 0xff},
+	{0xff, 0xff, 0xff, 0xff, 0xff, 0xff, 0xff, 0xff, 0xff, 0x01},
+	{0x80, 0x80, 0x80, 0x80, 0x80, 0x80, 0x80, 0x80, 0x80, 0x01},
+}
+
+// c15SpanLimit: baselines above this size get no span deviations in the quick tier.
+const c15SpanLimit = 768
+
 // c15ByteMuts calls f with every byte-level deviation of base (the buffer passed to f is reused).
 func c15ByteMuts(base []byte, f func(m c15ByteMut, in []byte) bool) {
+	c15ByteMutsOpt(base, true, f)
+}
+
+func c15ByteMutsOpt(base []byte, spans bool, f func(m c15ByteMut, in []byte) bool) {
 	n := len(base)
 	for k := 0; k < n; k++ {
 		if !f(c15ByteMut{Kind: "trunc", Pos: k}, base[:k]) {
@@ -50,6 +77,21 @@ func c15ByteMuts(base []byte, f func(m c15ByteMut, in []byte) bool) {
 			copy(buf, base)
 			buf[i] = v
 			if !f(c15ByteMut{Kind: "set", Pos: i, Val: v}, buf) {
+				return
+			}
+		}
+	}
+	if !spans {
+		return
+	}
+	for i := 0; i < n; i++ {
+		for _, sp := range c15LengthSpans {
+			if i+len(sp) > n {
+				continue
+			}
+			copy(buf, base)
+			copy(buf[i:], sp)
+			if !f(c15ByteMut{Kind: "span", Pos: i, Span: fmt.Sprintf("%x", sp)}, buf) {
 				return
 			}
 		}
